@@ -180,7 +180,7 @@ def run_one(tape: Any, cfg: Dict[str, Any], forbid: FrozenSet[str] = frozenset()
             delay = [0.0, 0.05, 0.5][tape.draw(3, 'updelay')]
             uops: List[Any] = [('pause_read',), ('wait_rx', lambda p: p.st is not None and len(p.st.rx) > 0),
                                ('send', upstream_resp, 'dribble', maxchunk)] + ([('sleep', delay)] if delay else []) + [('reset',)]
-            org = Origin(w, '10.0.0.1', 443, lambda i: list(uops), name='up', cap_in=1024, cap_out=caps[1], read_mode='chunky')
+            org = Origin(w, '10.0.0.1', 443, lambda i: list(uops), name='up', cap_in=1024, cap_out=caps[1], read_mode='chunky', reading=False)
         if mode == 'upstream_close':
             close_kind = [('close',), ('reset',)][tape.weighted([4, 1], 'upclose')]
             if close_kind == ('reset',) and not g.note('upstream_reset'):
